@@ -34,25 +34,32 @@ func RenameArgumentsAction(newNames []string) RewriteAction {
 		// rewriter, constructors that promoted this option, merged builders).
 		option = option.DeepCopy()
 
+		// all the arguments are renamed at once: a new name can be the old name
+		// of another argument.
+		renames := make(map[string]string, len(option.Args))
 		for i, arg := range option.Args {
-			previousName := arg.Name
+			renames[arg.Name] = newNames[i]
 			option.Args[i].Name = newNames[i]
+		}
 
-			// every use of the argument follows: assigned values, constraints
-			// and path indices
-			for j, assignment := range option.Assignments {
-				renameArgumentInValue(&option.Assignments[j].Value, previousName, newNames[i])
+		// every use of the arguments follows: assigned values, constraints
+		// and path indices
+		for j, assignment := range option.Assignments {
+			renameArgumentsInValue(&option.Assignments[j].Value, renames)
 
-				for k, constraint := range assignment.Constraints {
-					if constraint.Argument.Name == previousName {
-						option.Assignments[j].Constraints[k].Argument.Name = newNames[i]
-					}
+			for k, constraint := range assignment.Constraints {
+				if newName, renamed := renames[constraint.Argument.Name]; renamed {
+					option.Assignments[j].Constraints[k].Argument.Name = newName
+				}
+			}
+
+			for k, pathItem := range assignment.Path {
+				if pathItem.Index == nil || pathItem.Index.Argument == nil {
+					continue
 				}
 
-				for k, pathItem := range assignment.Path {
-					if pathItem.Index != nil && pathItem.Index.Argument != nil && pathItem.Index.Argument.Name == previousName {
-						option.Assignments[j].Path[k].Index.Argument.Name = newNames[i]
-					}
+				if newName, renamed := renames[pathItem.Index.Argument.Name]; renamed {
+					option.Assignments[j].Path[k].Index.Argument.Name = newName
 				}
 			}
 		}
@@ -63,11 +70,13 @@ func RenameArgumentsAction(newNames []string) RewriteAction {
 	}
 }
 
-// renameArgumentInValue renames an argument wherever an assignment value uses
-// it, envelopes included.
-func renameArgumentInValue(value *ast.AssignmentValue, previousName string, newName string) {
-	if value.Argument != nil && value.Argument.Name == previousName {
-		value.Argument.Name = newName
+// renameArgumentsInValue renames the arguments wherever an assignment value
+// uses them, envelopes included.
+func renameArgumentsInValue(value *ast.AssignmentValue, renames map[string]string) {
+	if value.Argument != nil {
+		if newName, renamed := renames[value.Argument.Name]; renamed {
+			value.Argument.Name = newName
+		}
 	}
 
 	if value.Envelope == nil {
@@ -75,7 +84,7 @@ func renameArgumentInValue(value *ast.AssignmentValue, previousName string, newN
 	}
 
 	for i := range value.Envelope.Values {
-		renameArgumentInValue(&value.Envelope.Values[i].Value, previousName, newName)
+		renameArgumentsInValue(&value.Envelope.Values[i].Value, renames)
 	}
 }
 
